@@ -9,6 +9,7 @@ from ..engine import finite, flow
 from ..engine.mutate import Mutant, Variant, in_function, replace_once
 from ..engine.runner import Rule
 from ..engine.source import AnalysisError
+from . import C05
 from . import shared
 from .common import callee_name, calls_in
 
@@ -183,6 +184,36 @@ def rule_invalid_target_wiring(ctx):
     ctx.check(ok, fi.fq, "every invalid target is reported as an error and sets the failed bit", "invalid targets do not reach the exit status", "for ... in invalid_targets: reporter(ERROR); returncode |= FAILED")
 
 
+def rule_creator_chain_walk(ctx):
+    """R-C19-7: 'is a pending step among the creators of this node' walks the whole chain, through trees as well.
+
+    The invalid-target verdict spares a target whose stale row will be re-declared by a pending plan.  A file inside a
+    static tree has the tree as creator and the plan above it: a walk that stops at the first node that is not a step
+    reports a valid target as invalid (exit status FAILED, nothing built).
+    """
+    fi = ctx.prog.func("workflow.Workflow._creator_chain_pending")
+    loops = [l for l in ast.walk(fi.node) if isinstance(l, ast.While)]
+    ctx.check(len(loops) == 1, fi.fq, "one loop walks the chain", f"{len(loops)} loops", "one loop")
+    if len(loops) != 1:
+        return
+    l = loops[0]
+    climbs = any(isinstance(a, ast.Assign) and isinstance(a.value, ast.Call) and callee_name(a.value) == "creator" for a in ast.walk(l))
+    cond = ast.unparse(l.test)
+    # where the walk gives up: only at the root or at a node without creator
+    stops = []
+    if cond != "True":
+        stops.append(cond)
+    for n in ast.walk(l):
+        if isinstance(n, ast.If) and any(isinstance(r, ast.Return) and isinstance(r.value, ast.Constant) and r.value.value is False for r in ast.walk(n)):
+            stops.append(ast.unparse(n.test))
+    tail_false = [r for r in fi.node.body if isinstance(r, ast.Return) and isinstance(r.value, ast.Constant) and r.value.value is False]
+    narrow = [c for c in stops if "Step" in c and "Root" not in c] + (["loop condition ends at the first non-step"] if tail_false and "Step" in cond else [])
+    ok = climbs and bool(stops) and all(("Root" in c or "None" in c) for c in stops) and not narrow
+    ctx.check(ok, fi.fq, "the walk ends only at the root (or a node without creator)", f"stop conditions {stops}: a static tree (or any creator that is not a step) ends the walk, so a file inside a tree declared by a pending plan is judged on its stale row", "ends at Root/None only", where=ctx.where_of(fi))
+    found = [n for n in ast.walk(l) if isinstance(n, ast.If) and "StepState.PENDING" in ast.unparse(n.test) and any(isinstance(r, ast.Return) and isinstance(r.value, ast.Constant) and r.value.value is True for r in ast.walk(n))]
+    ctx.check(bool(found), fi.fq, "a PENDING step on the chain answers True", "no such answer", "return True")
+
+
 def rule_partition(ctx):
     """R-C19-3."""
     t = ctx.cat.tables.get("pend_blocker")
@@ -281,6 +312,8 @@ RULES = [
     Rule("R-C19-3", "partition structure of the pending report", rule_partition, min_instances=22),
     Rule("R-C19-4", "scratch tables", rule_scratch, min_instances=3),
     Rule("R-C19-6", "invalid targets reach the report and the exit status", rule_invalid_target_wiring, min_instances=2),
+    Rule("R-C19-7", "the creator chain is walked to the root", rule_creator_chain_walk, min_instances=3),
+    Rule("R-C19-8", "no step is left in a transient state by a restart (such a step is counted neither as failed nor as pending)", C05.rule_recovery, min_instances=10),
     Rule("R-C19-5", "invalid-target verdict is taken after the startup rescans", rule_invalid_target_verdict, min_instances=1),
 ]
 
@@ -309,6 +342,7 @@ WHERE req.node IN (SELECT i FROM pend_step)
 
 
 MUTANTS = [
+    Mutant("creator-walk-stops-at-tree", "workflow.py", in_function("Workflow._creator_chain_pending", lambda t: t.replace("        while True:\n            node = node.creator()\n            if node is None or isinstance(node, Root):\n                # Root.creator() returns Root itself, so this also terminates the walk.\n                return False\n            if isinstance(node, Step) and node.get_state() == StepState.PENDING:\n                return True\n", "        node = node.creator()\n        while isinstance(node, Step):\n            if node.get_state() == StepState.PENDING:\n                return True\n            node = node.creator()\n        return False\n", 1) if "        while True:\n            node = node.creator()\n" in t else None), ("R-C19-7",)),
     Mutant("invalid-target-dropped", "finalize.py", in_function("_report_missing_targets", replace_once("                    invalid_targets.append((target, str(exc)))\n", "                    pass\n")), ("R-C19-6",)),
     Mutant("invalid-target-without-failed-bit", "finalize.py", in_function("_report_missing_targets", replace_once('        await reporter("ERROR", f"Invalid build target: {message}")\n        returncode |= ReturnCode.FAILED\n', '        await reporter("ERROR", f"Invalid build target: {message}")\n')), ("R-C19-6",)),
     Mutant("invalid-target-only-warns", "finalize.py", in_function("_report_missing_targets", replace_once("        returncode |= ReturnCode.FAILED\n", "        returncode |= ReturnCode.WARNING\n")), ("R-C19-2",)),
